@@ -149,6 +149,32 @@ pub mod step {
         kani::cover!(true, "end");
     }
 
+    /// i16, negative half-wave: the mirror image (inputs whose negated amplitude is representable)
+    #[kani::proof]
+    pub fn i16_negative_half_wave() {
+        let l: i16 = kani::any();
+        kani::assume(l <= 0 && l > i16::MIN);
+        let x: i16 = kani::any();
+        kani::assume(x > i16::MIN);
+        let ga = any_gain();
+        let gr = any_gain();
+        let mut det: Detector<i16, Peak<NegativeHalfWave>> =
+            Detector::verif_with_gains(Peak::negative_half_wave(), ga, gr, l);
+        let out = det.next(x);
+        let d: i16 = if x < 0 { x } else { 0 };
+        let g = if l < d { ga } else { gr };
+        let diff: i16 = l - d;
+        let p: f32 = (diff as f32 / 32768.0) * g;
+        assert!(out as i128 == d as i128 + ref_trunc_f32(p, 16), "envelope == detected + gain * (previous - detected)");
+        let lo = if l < d { l } else { d };
+        let hi = if l < d { d } else { l };
+        assert!(lo <= out && out <= hi, "never outside [previous envelope, detected value]");
+        assert!(out <= 0 && out > i16::MIN, "invariant preserved");
+        kani::cover!(l < d && g > 0.0 && g < 1.0, "attack (towards 0)");
+        kani::cover!(l > d && g > 0.0 && g < 1.0, "release (away from 0)");
+        kani::cover!(true, "end");
+    }
+
     /// u8, positive half-wave (unsigned formats are re-centred about 128)
     #[kani::proof]
     pub fn u8_positive_half_wave() {
